@@ -7,8 +7,10 @@ import (
 	"fmt"
 	"io"
 	"reflect"
+	"runtime"
 	"sort"
 	"strconv"
+	"strings"
 	"sync"
 	"time"
 
@@ -197,8 +199,10 @@ type Runner struct {
 	snaps   []snapRec
 	arrived int
 	dead    bool
+	gen     int
 	Calls   int
 	Panics  int
+	Hangs   int
 }
 
 func (rn *Runner) opOf(p *spb.AFTOperation) abs.Op {
@@ -295,27 +299,84 @@ func (rn *Runner) state() any {
 	return st
 }
 
+// HangLimit bounds one call into the code under test.
+var HangLimit = 8 * time.Second
+
+// MaxHangs ends a run early: after this many hangs nothing more is executed.
+var MaxHangs = 2
+
+// BlockedIn returns the frames of goroutines of this process that are blocked
+// inside the given package path fragment (evidence for a "hang" event: time
+// alone is never the oracle).
+func BlockedIn(pkg string) []string {
+	buf := make([]byte, 1<<22)
+	buf = buf[:runtime.Stack(buf, true)]
+	var out []string
+	for _, g := range strings.Split(string(buf), "\n\n") {
+		if !strings.Contains(g, pkg) {
+			continue
+		}
+		lines := strings.Split(g, "\n")
+		hdr := lines[0]
+		if !(strings.Contains(hdr, "semacquire") || strings.Contains(hdr, "chan send") || strings.Contains(hdr, "chan receive") || strings.Contains(hdr, "select") || strings.Contains(hdr, "sync.")) {
+			continue
+		}
+		fr := ""
+		for _, l := range lines[1:] {
+			if strings.Contains(l, pkg) && !strings.HasPrefix(l, "\t") {
+				fr = l
+				break
+			}
+		}
+		out = append(out, hdr+" @ "+fr)
+		if len(out) >= 6 {
+			break
+		}
+	}
+	return out
+}
+
 // Step executes one input. A panic inside the code under test is recorded as
-// a "panic" event (for which the specification has no action) and ends the
-// segment: the following inputs up to the next reset are skipped.
+// a "panic" event and a call that does not return within HangLimit as a "hang"
+// event (the specification has no action for either); both end the segment:
+// the following inputs up to the next reset are skipped.
 func (rn *Runner) Step(in Input) (err error) {
-	if rn.dead && in.A != "reset" {
+	if (rn.dead && in.A != "reset") || rn.Hangs >= MaxHangs {
 		return nil
 	}
-	defer func() {
-		if p := recover(); p != nil {
-			rn.mu.Lock()
-			rn.lastDel, rn.tries = nil, nil
-			rn.mu.Unlock()
-			rn.Sink.Emit(Event{"ev": "panic", "input": in, "msg": fmt.Sprint(p)})
-			rn.Panics++
-			rn.dead = true
-			rn.r = nil
-			rib.VerifSetTracer(nil)
-			err = nil
-		}
+	gen := rn.gen
+	done := make(chan error, 1)
+	go func() {
+		defer func() {
+			if p := recover(); p != nil {
+				if rn.gen != gen {
+					return
+				}
+				rn.mu.Lock()
+				rn.lastDel, rn.tries = nil, nil
+				rn.mu.Unlock()
+				rn.Sink.Emit(Event{"ev": "panic", "input": in, "msg": fmt.Sprint(p)})
+				rn.Panics++
+				rn.dead = true
+				rn.r = nil
+				rib.VerifSetTracer(nil)
+				done <- nil
+			}
+		}()
+		done <- rn.step(in)
 	}()
-	return rn.step(in)
+	select {
+	case err = <-done:
+		return err
+	case <-time.After(HangLimit):
+		rn.gen++ // events of the stuck call, should it ever resume, are dropped
+		rn.Sink.Emit(Event{"ev": "hang", "input": in, "blocked": BlockedIn("gribigo/rib")})
+		rn.Hangs++
+		rn.dead = true
+		rn.r = nil
+		rib.VerifSetTracer(nil)
+		return nil
+	}
 }
 
 func (rn *Runner) step(in Input) error {
